@@ -5,7 +5,7 @@ base, rnd, res = sys.argv[1], int(sys.argv[2]), sys.argv[3]
 here = os.path.dirname(os.path.dirname(os.path.abspath(__file__)))
 ok = bad = 0
 for p in sorted(os.listdir(base)):
-    for n in (1, 2):
+    for n in (1, 2, 3):
         cf = os.path.join(res, "%s-%d.txt" % (p, n))
         if not os.path.exists(cf):
             continue
